@@ -145,6 +145,13 @@ def extract_profile():
     prof = (weakest(idx_loads, 'acq'), weakest(idx_stores, 'rel'), weakest(alive_rmws, 'both'), weakest(alive_loads, 'acq'), fb, fa)
     return prof, rmw_decides, problems
 
+def emit(name, text):
+    """write gen/<name> only when its content changes (keeps make from recompiling the closure on every run)"""
+    os.makedirs(OUT, exist_ok=True)
+    path = os.path.join(OUT, name)
+    if os.path.exists(path) and open(path).read() == text: return
+    open(path, 'w').write(text)
+
 def write_profile(prof, rmw_decides, problems):
     os.makedirs(OUT, exist_ok=True)
     lines = ['(* GENERATED by tools/extract_facts.py from /repo/src on every run - do not edit *)',
@@ -154,7 +161,7 @@ def write_profile(prof, rmw_decides, problems):
              f'Definition rmw_decides : bool := {b(rmw_decides)}.',
              f'Definition extractor_clean : bool := {b(not problems)}.']
     for p in problems: lines.append(f'(* PROBLEM: {p} *)')
-    open(os.path.join(OUT, 'Profile.v'), 'w').write('\n'.join(lines) + '\n')
+    emit('Profile.v', '\n'.join(lines) + '\n')
 
 def extract_structure():
     """loop constructs per function, functions that call Waker::wake"""
@@ -192,7 +199,7 @@ def write_structure(loops, wakers):
     lines.append('].')
     lines.append('(* functions that call Waker::wake / wake_by_ref *)')
     lines.append('Definition wake_callers : list (string * string) := [' + '; '.join(f'("{f}", "{fn}")' for f, fn in wakers) + '].')
-    open(os.path.join(OUT, 'Structure.v'), 'w').write('\n'.join(lines) + '\n')
+    emit('Structure.v', '\n'.join(lines) + '\n')
 
 def args_of(txt, start):
     """argument list of the call whose '(' is at txt[start]"""
@@ -300,7 +307,7 @@ def write_vmem(calls, rel, problems):
     lines.append(f'Definition release : vrelease := mkVR {b(rel[0])} {rel[1]} {b(rel[2])}.')
     lines.append(f'Definition extractor_clean : bool := {b(not problems)}.')
     for p in problems: lines.append(f'(* PROBLEM: {p} *)')
-    open(os.path.join(OUT, 'VmemCalls.v'), 'w').write('\n'.join(lines) + '\n')
+    emit('VmemCalls.v', '\n'.join(lines) + '\n')
 
 # ------------------------------------------------------------------ arithmetic kernels -> Gallina (gen/Kernels.v)
 def fn_src(path, name, nth=0):
@@ -528,7 +535,7 @@ def write_kernels(defs, problems):
              'From Coq Require Import List Arith Bool.', 'Require Import MRB.Model.KernelM.', ''] + defs
     lines.append(f'Definition extractor_clean : bool := {b(not problems)}.')
     for p in problems: lines.append(f'(* PROBLEM: {p} *)')
-    open(os.path.join(OUT, 'Kernels.v'), 'w').write('\n'.join(lines) + '\n')
+    emit('Kernels.v', '\n'.join(lines) + '\n')
 
 def b(x): return 'true' if x else 'false'
 
@@ -547,7 +554,7 @@ def write_send(clauses, problems, structure_ok):
     lines.append(f'Definition structure_ok : bool := {b(structure_ok)}.')
     lines.append(f'Definition extractor_clean : bool := {b(not problems)}.')
     for p in problems: lines.append(f'(* PROBLEM: {p} *)')
-    open(os.path.join(OUT, 'SendClauses.v'), 'w').write('\n'.join(lines) + '\n')
+    emit('SendClauses.v', '\n'.join(lines) + '\n')
 
 def main():
     c, p, s = extract_send_clauses()
